@@ -1,8 +1,10 @@
 (* C14 — parsing yields well-formed logical lines that cover every token. Statements only.
-   Stage 1: the conditional-directive passes (fully proved) + acceptance predicates on the real
-   parse result; the grammar is an oracle (DESIGN.md §5.1). *)
+   The grammar is an oracle: it is whatever sequence of line-state primitives it executes. The
+   conditional-directive passes and the line-state kernel are fully modelled; the theorems hold for
+   EVERY event sequence, hence for every grammar and every input. *)
 From Coq Require Import Sorted.
-From PasfmtVerif Require Import Model.DirectiveTree Proofs.DirectiveTreeProofs.
+From PasfmtVerif Require Import Model.DirectiveTree Proofs.DirectiveTreeProofs Model.ParserKernel Proofs.ParserKernelProofs
+  Proofs.ParseFileProofs Model.Pipeline Proofs.PipelineProofs.
 
 (* every pass is a strictly increasing list of valid indices of non-directive tokens *)
 Theorem C14_pass_sorted :
@@ -18,3 +20,38 @@ Proof. exact passes_cover. Qed.
 Theorem C14_single_identity_pass :
   forall l, Forall (fun ty => cd_kind ty = None) l -> all_passes l = [seq 0 (length l)].
 Proof. exact no_directives_single_identity_pass. Qed.
+
+(* the line-state kernel, for every sequence of primitives: every line strictly increasing, no
+   token placed twice, only tokens of the pass *)
+Theorem C14_kernel_lines_wf :
+  forall pass evs, increasing pass ->
+  Forall increasing (k_lines (k_run pass evs)) /\ NoDup (concat (k_lines (k_run pass evs)))
+  /\ incl (concat (k_lines (k_run pass evs))) pass.
+Proof. exact kernel_lines_wf. Qed.
+
+(* if the pass is consumed to its end, every token of it is in a line or was skipped by skip_token *)
+Theorem C14_kernel_cover :
+  forall pass evs, (length pass <= k_pi (k_run pass evs))%nat ->
+  forall i t, nth_error pass i = Some t -> In t (concat (k_lines (k_run pass evs))) \/ In i (k_skips evs 0).
+Proof. exact kernel_cover. Qed.
+
+(* the whole parse_file, any grammar (one arbitrary event log per pass): every final line is
+   non-empty, strictly increasing and in range … *)
+Theorem C14_final_lines_wf :
+  forall tys evss, length evss = length (all_passes tys) ->
+  Forall (fun l => l <> [] /\ increasing l /\ Forall (fun i => (i < length tys)%nat) l) (final_lines tys evss).
+Proof. exact final_lines_wf. Qed.
+
+(* … and every token of the file belongs to at least one final line, provided each pass was consumed
+   to its end and skip_token only skipped compiler directives (both evaluated on every real parse) *)
+Theorem C14_final_lines_cover :
+  forall tys evss, length evss = length (all_passes tys) ->
+  (forall pe, In pe (pass_runs tys evss) -> (length (fst pe) <= k_pi (k_run (fst pe) (snd pe)))%nat) ->
+  (forall pe i t, In pe (pass_runs tys evss) -> In i (k_skips (snd pe) 0) -> nth_error (fst pe) i = Some t ->
+                  is_compiler_directive tys t = true) ->
+  forall i, (i < length tys)%nat -> exists l, In l (final_lines tys evss) /\ In i l.
+Proof. exact final_lines_cover. Qed.
+
+(* the five hook sites are the only code that mutates the parser's line state (generated inventory) *)
+Theorem C14_kernel_sites : strings_eqb inv_kernel_mutations expected_kernel_mutations = true.
+Proof. exact inventory_kernel_mutations. Qed.
